@@ -41,8 +41,13 @@ func (c *Curator) allocateTS(num int, existing []core.TractserverID, down []core
 
 	// Walk down from the highest failure domain level and pick.
 	reverseIndex := c.tsMon.getFailureDomainToFreeTS()
+	// The reverse index only contains hosts that can take new data. An
+	// existing host that is full or unhealthy is not in it, so look its
+	// failure domains up explicitly in order to still avoid them.
+	existingDomains := c.tsMon.getFailureDomains(existingAddrs)
 	for i := len(reverseIndex) - 1; i >= 0 && num > 0; i-- {
-		chosen := pickNFromDomain(num, existingAddrs, downAddrs, reverseIndex[i])
+		avoid := append(domainMembers(existingDomains, i, reverseIndex[i]), existingAddrs...)
+		chosen := pickNFromDomain(num, avoid, downAddrs, reverseIndex[i])
 		// Update return addresses and existing addresses.
 		addrs = append(addrs, chosen...)
 		existingAddrs = append(existingAddrs, chosen...)
@@ -62,6 +67,23 @@ func (c *Curator) allocateTS(num int, existing []core.TractserverID, down []core
 	}
 	log.V(2).Infof("picked tractservers with id: %s, addr: %s", ids, addrs)
 	return
+}
+
+// domainMembers returns one member of 'domainToHosts[d]' for every level-'lvl'
+// domain 'd' named in 'domains' (the failure domain hierarchies of some hosts,
+// from the lowest level to the highest). Passing these members as 'existing'
+// to pickNFromDomain makes it skip those domains even if the hosts themselves
+// are not in 'domainToHosts'.
+func domainMembers(domains [][]string, lvl int, domainToHosts map[string][]string) (members []string) {
+	for _, domain := range domains {
+		if lvl >= len(domain) {
+			continue
+		}
+		if hosts := domainToHosts[domain[lvl]]; len(hosts) != 0 {
+			members = append(members, hosts[0])
+		}
+	}
+	return members
 }
 
 // pickNFromDomain picks at most 'num' tractservers from 'domainToHosts' to
